@@ -32,7 +32,11 @@ pub fn exercise_v1(h: &v1::Header<'_>) -> u64 {
     let _ = write!(sink, "{}{:?}", h.addresses, h.addresses);
     let _ = h.addresses.protocol();
     // less travelled surface: clone_from in every borrowed / owned combination, pretty Debug,
-    // format specs with flags, a sink that formats while it is being written to
+    // format specs with flags, a sink that formats while it is being written to (every fourth
+    // call: these cost ten times the rest)
+    if !every_fourth() {
+        return 12;
+    }
     let mut slot = o.clone();
     slot.clone_from(h);
     let _ = slot.protocol().len() + slot.addresses_str().len();
@@ -46,6 +50,19 @@ pub fn exercise_v1(h: &v1::Header<'_>) -> u64 {
     let _ = write!(re, "{}", h.addresses);
     let _ = write!(re, "{}", h);
     20
+}
+
+thread_local! {
+    static TURN: std::cell::Cell<u32> = const { std::cell::Cell::new(0) };
+}
+
+/// true on every fourth call of a thread
+fn every_fourth() -> bool {
+    TURN.with(|t| {
+        let n = t.get().wrapping_add(1);
+        t.set(n);
+        n % 4 == 0
+    })
 }
 
 thread_local! {
@@ -137,8 +154,8 @@ pub fn exercise_tlvs(t: v2::TypeLengthValues<'_>) -> Result<u64, u64> {
     // the rest of the Iterator surface, on fresh copies and on a partly consumed copy: whatever
     // these return (C11 judges that), they must return - also for absurd arguments
     // (iteration is known to be finite at this point, so the consuming adapters terminate);
-    // long sections take this part one time in sixteen
-    if n > 2048 && (n + items) % 16 != 0 {
+    // long sections take this part one time in sixteen, short ones every other time
+    if (n > 2048 && (n + items) % 16 != 0) || (n <= 2048 && !every_fourth() && !every_fourth()) {
         return Ok(calls + 3);
     }
     sink.clear();
@@ -201,6 +218,10 @@ pub fn exercise_v2(h: &v2::Header<'_>) -> Result<u64, u64> {
     let _ = o.tlv_bytes().len() + o.address_bytes().len();
     let c = h.clone();
     let _ = c == *h;
+    if !every_fourth() {
+        let a = exercise_tlvs(h.tlvs())?;
+        return Ok(18 + a);
+    }
     let mut slot = OTHER_V2.with(|x| x.clone());
     slot.clone_from(h);
     let _ = slot.length() + slot.address_bytes().len() + slot.tlv_bytes().len();
@@ -440,17 +461,17 @@ impl Monitor for C03 {
             s.push(spec::engine::stream("v2-ctl-s", tier.n(0, 400_000, 20_000_000)));
         }
         s.extend(tlv_streams(tier, 4_000));
-        s
+        spec::engine::sample_sweeps(s, tier, 3, 3)
     }
     fn run_case(&self, stream: &str, idx: u64, seed: u64, rec: &mut Recorder) {
         if stream.starts_with("v1-") {
             let input = v1_case(stream, idx, seed);
-            spec::sib::run_v1(&input, idx, 4, |x| drive(x, "v1", rec));
+            spec::sib::run_v1(&input, idx, if stream.contains("sweep") { 16 } else { 4 }, |x| drive(x, "v1", rec));
         } else if stream.starts_with("v2-") {
             crate::c02::SCRATCH.with(|b| {
                 let mut b = b.borrow_mut();
                 v2_case(stream, idx, seed, &mut b);
-                spec::sib::run_v2(&b, idx, 4, |x| drive(x, "v2", rec));
+                spec::sib::run_v2(&b, idx, if stream.contains("sweep") || stream == "v2-dense" { 16 } else { 4 }, |x| drive(x, "v2", rec));
             });
         } else {
             let s = tlv_case(stream, idx, seed);
